@@ -264,6 +264,7 @@ def runLine (line : String) : String :=
   | [id, "LF3", x] =>
     -- class predicate of finding F3: removing tab/newline bytes splices an ill-formed UTF-8 sequence
     id ++ "\t" ++ b01 (goRunes (removeTabNl (tokBytes x)).1 != (goRunes (tokBytes x)).filter (fun c => !(c.toNat == 9 || c.toNat == 10 || c.toNat == 13)))
+  | [id, "LPROF", name, tok] => id ++ "\t" ++ b01 (profileMatches name tok)
   | [id, "LRD", x] => id ++ "\t" ++ xs (repeatedDecode (tokBytes x))
   | id :: _ => id ++ "\tBADLINE"
   | [] => "BADLINE"
